@@ -30,6 +30,8 @@ FUNCS = [
     ("src_transversalRadius", "src/geodesy/EarthEllipsoid.cpp", "romea::core::EarthEllipsoid::transversalRadius", "transversalRadius"),
     ("src_toECEF", "src/geodesy/ECEFConverter.cpp", "romea::core::ECEFConverter::toECEF", "toECEF"),
     ("src_toLambert", "src/geodesy/LambertConverter.cpp", "romea::core::LambertConverter::toLambert", "toLambert"),
+    # matrix mode: the 3x3 block written column by column with Eigen comma initialisers  m.linear().col(k) << a, b, c;
+    ("src_enuFrame", "src/geodesy/ENUConverter.cpp", "romea::core::ENUConverter::setAnchor", "setAnchor", {"matrix": "linear"}),
 ]
 UNARY = {"sin": "nsin", "cos": "ncos", "tan": "ntan", "atan": "natan", "sqrt": "nsqrt", "log": "nln", "exp": "nexp",
          "abs": "nabs", "fabs": "nabs", "asin": "nasin", "acos": "nacos"}
@@ -78,8 +80,11 @@ def zl(z):
 
 
 class Fn:
-    def __init__(self, node, known=None):
+    def __init__(self, node, known=None, mode=None):
         self.node = node
+        self.mode = mode or {}
+        self.cols = {}        # matrix mode: column index -> [terms]
+        self.skipped = []     # matrix mode: statements that touch neither the matrix nor a scalar local
         self.known = known or {}   # C++ function name -> (coq name, number of parameters) for pure helpers already translated
         # scalar parameters first, in declaration order; other free variables (members, fields of parameters) follow
         self.free = [c["name"] for c in node.get("inner", []) if c.get("kind") == "ParmVarDecl" and c.get("name")
@@ -206,6 +211,17 @@ class Fn:
                 continue                                  # (void)x; — silences an unused-variable warning, no effect
             elif k == "NullStmt":
                 continue
+            elif self.mode.get("matrix") and k in ("BinaryOperator", "CXXOperatorCallExpr", "ExprWithCleanups", "CXXMemberCallExpr"):
+                col = self.comma_init(st)
+                if col is not None:
+                    kcol, terms = col
+                    if kcol in self.cols:
+                        raise Unsupported("column %d written twice" % kcol)
+                    self.cols[kcol] = terms
+                    continue
+                if self.mentions(st, self.mode["matrix"]):
+                    raise Unsupported("statement touches the matrix outside a comma initialiser")
+                self.skipped.append(k)
             elif k in ("BinaryOperator", "CXXOperatorCallExpr", "ExprWithCleanups"):
                 s = self.strip(st)
                 if s.get("kind") == "BinaryOperator" and s.get("opcode") == "=":
@@ -223,9 +239,48 @@ class Fn:
                 raise Unsupported("assignment target")
             else:
                 raise Unsupported("statement %s" % k)
+        if self.mode.get("matrix"):
+            if sorted(self.cols) != [0, 1, 2] or any(len(self.cols[c]) != 3 for c in self.cols):
+                raise Unsupported("matrix columns written: %s" % sorted(self.cols))
+            return [self.cols[c][r] for r in range(3) for c in range(3)]       # row-major
         if result is None:
             raise Unsupported("no return")
         return result
+
+    def mentions(self, n, member):
+        """does the statement name the matrix accessor, or any scalar local (which it could then modify)?"""
+        if n.get("kind") == "MemberExpr" and n.get("name") == member:
+            return True
+        if n.get("kind") == "DeclRefExpr" and n.get("referencedDecl", {}).get("name") in self.locals:
+            return True
+        return any(isinstance(c, dict) and self.mentions(c, member) for c in n.get("inner", []))
+
+    def comma_init(self, st):
+        """X.<member>().col(k) << e1, e2, e3;   ->  (k, [e1, e2, e3])   or None when the statement is something else"""
+        def opname(n):
+            if n.get("kind") != "CXXOperatorCallExpr" or not n.get("inner"):
+                return None
+            return self.strip(n["inner"][0]).get("referencedDecl", {}).get("name")
+        n = self.strip(st)
+        rest = []
+        while opname(n) == "operator,":
+            rest.insert(0, n["inner"][2])
+            n = self.strip(n["inner"][1])
+        if opname(n) != "operator<<":
+            return None
+        target, first = self.strip(n["inner"][1]), n["inner"][2]
+        if target.get("kind") != "CXXMemberCallExpr":
+            return None
+        callee = self.strip(target["inner"][0])
+        if callee.get("kind") != "MemberExpr" or callee.get("name") != "col" or len(target["inner"]) != 2:
+            return None
+        base = self.strip(callee["inner"][0])
+        if base.get("kind") != "CXXMemberCallExpr" or self.strip(base["inner"][0]).get("name") != self.mode["matrix"]:
+            return None
+        idx = self.strip(target["inner"][1])
+        if idx.get("kind") != "IntegerLiteral":
+            raise Unsupported("column index is not a literal")
+        return int(idx["value"]), [self.expr(e) for e in [first] + rest]
 
 
 def find_def(objs, mname):
@@ -248,12 +303,14 @@ def generate(repo="/repo"):
              "From Coq Require Import ZArith.", "From Romea Require Import Num.", "", "Section Src.", "Context {T : Type} (N : NumOps T).", ""]
     errors, summary = [], {}
     known = {}
-    for cname, src, flt, mname in FUNCS:
+    for entry in FUNCS:
+        cname, src, flt, mname = entry[:4]
+        mode = entry[4] if len(entry) > 4 else None
         try:
             defs = find_def(load(repo, src, flt), mname)
             if len(defs) != 1:
                 raise Unsupported("%d definitions found" % len(defs))
-            f = Fn(defs[0], known)
+            f = Fn(defs[0], known, mode)
             res = f.body()
             if len(f.free) == f.nparams and len(res) == 1:
                 known[mname] = (cname, f.nparams)          # a pure scalar helper other functions may call
@@ -263,7 +320,9 @@ def generate(repo="/repo"):
             body += "  " + (res[0] if len(res) == 1 else "(" + ", ".join(res) + ")")
             rty = "T" if len(res) == 1 else "(" + " * ".join(["T"] * len(res)) + ")%type"
             params = " ".join("(%s : T)" % v for v in f.free)
-            lines.append("(* %s::%s   free variables in order of appearance: %s *)" % (src, mname, ", ".join(f.free)))
+            lines.append("(* %s::%s   free variables in order of appearance: %s%s *)" % (
+                src, mname, ", ".join(f.free),
+                ("; 3x3 block row-major; %d statements not touching it skipped" % len(f.skipped)) if mode else ""))
             lines.append("Definition %s %s : %s :=\n%s.\n" % (cname, params, rty, body))
             summary[cname] = f.free
         except Unsupported as e:
